@@ -206,7 +206,15 @@ fn remove_anonymous_from_statement(
                     *stmt,
                     &Some(var_access.clone()),
                 )?;
-                let boxed_stmt = if !new_declarations.is_empty() {
+                // The counter is needed only if a component array declared for this loop's
+                // own body is dimensioned (and indexed) by it; the arrays of a nested loop use
+                // the nested loop's counter.
+                let counter_used = new_declarations.iter().any(|declaration| {
+                    matches!(declaration, Statement::Declaration { dimensions, .. }
+                        if dimensions.iter().any(|dimension| matches!(dimension,
+                            Expression::Variable { name, .. } if *name == id_var_while)))
+                });
+                let boxed_stmt = if counter_used {
                     declarations.push(build_declaration(
                         meta.clone(),
                         VariableType::Var,
@@ -239,6 +247,7 @@ fn remove_anonymous_from_statement(
                         Statement::Block { meta: meta.clone(), stmts: vec![new_stmt, subs_access] };
                     Box::new(new_block)
                 } else {
+                    declarations.append(&mut new_declarations);
                     Box::new(new_stmt)
                 };
 
